@@ -81,6 +81,8 @@ def run(ctx: Ctx) -> None:
     python_flags()
     ctx.rule = RULE
     cases = corpus("C13")
+    gap_corpus = [c for c in cases if c.get("gaps")]
+    cases = [c for c in cases if not c.get("gaps")]
     cases += grid()
     cases += g.clip_grid()
     cases += g.tiny_cases()
@@ -90,6 +92,7 @@ def run(ctx: Ctx) -> None:
     cases += gen_cases(ctx, n, p_missing=0.25, per_id_flags=0.4)
     # results that are not finite although every input is: judged by the oracle only (no exact-rational counterpart)
     g.check_nonfinite(ctx, g.gen_nonfinite_cases(ctx, max(200, n // 10)))
+    g.check_gap_cases(ctx, "C13", gap_corpus + g.gap_cases(ctx, max(60, n // 50), p_missing=0.25))
     g.check_cases(ctx, "C13", cases)
 
     from . import datapath  # full-stack stage: the same property through the real sourcing -> resampling -> formula stack
@@ -101,6 +104,8 @@ def replay(ctx: Ctx, data: dict) -> None:
     case = data.get("case")
     if not isinstance(case, dict) or "kind" not in case:
         return run(ctx)
+    if case.get("gaps"):
+        return g.check_gap_cases(ctx, "C13", [case])
     if case.get("nonfinite"):
         return g.check_nonfinite(ctx, [case])
     g.check_cases(ctx, "C13", [case])
